@@ -523,3 +523,140 @@ def triples(tree, out, bound=()):
     for i, c in enumerate(kids):
         out.add((pk, kind_of(c), i))
         triples(c, out)
+
+
+# ---- typed generation (expressions that also pass the type checker against PRELUDE) ---------------------
+class TypedGen:
+    """Generates trees of a requested type (int / bool / double) that the type checker accepts."""
+    INT_ARITH = ["PLUS", "MINUS", "MULT", "DIV", "MOD", "BIT_AND", "BIT_OR", "BIT_XOR", "BIT_LSHIFT", "BIT_RSHIFT",
+                 "MIN", "MAX"]
+    DBL_ARITH = ["PLUS", "MINUS", "MULT", "DIV", "MIN", "MAX"]
+    REL = ["LT", "LE", "GE", "GT", "EQ", "NEQ"]
+    DBL_FUN1 = ["FABS_F", "EXP_F", "LN_F", "SQRT_F", "SIN_F", "COS_F", "CEIL_F", "FLOOR_F", "TRUNC_F", "ROUND_F",
+                "ATAN_F", "TANH_F", "LOG2_F", "CBRT_F"]
+    DBL_FUN2 = ["FMOD_F", "FMAX_F", "FMIN_F", "POW_F", "HYPOT_F", "ATAN2_F", "COPY_SIGN_F"]
+
+    def __init__(self, rng, side_effects=True, doubles=True, quantifiers=True):
+        self.rng = rng
+        self.bound = []
+        self.side_effects = side_effects
+        self.doubles = doubles
+        self.quantifiers = quantifiers
+
+    def int_lvalue(self, d):
+        r = self.rng.random()
+        if d <= 0 or r < 0.4:
+            return ("id", self.rng.choice(["i", "j", "k"]))
+        if r < 0.55:
+            return ("idx", ("id", "a"), self.int(d - 1, pure=True))
+        if r < 0.65:
+            return ("idx", ("idx", ("id", "m"), self.int(d - 1, pure=True)), self.int(d - 1, pure=True))
+        if r < 0.75:
+            return ("dot", ("id", "s"), "f")
+        if r < 0.82:
+            return ("idx", ("dot", ("id", "s"), "g"), self.int(d - 1, pure=True))
+        if r < 0.88:
+            return ("dot", ("dot", ("id", "t"), "s"), "f")
+        if r < 0.94:
+            return ("dot", ("idx", ("id", "sa"), self.int(d - 1, pure=True)), "f")
+        return ("dot", ("id", "t"), "n")
+
+    def int_atom(self):
+        r = self.rng.random()
+        if self.bound and r < 0.25:
+            return ("id", self.rng.choice(self.bound))
+        if r < 0.6:
+            return ("id", self.rng.choice(INT_IDS))
+        return ("int", self.rng.choice([0, 1, 2, 3, 5, 10, 100, 32767, 2147483647]))
+
+    def int(self, d, pure=False):
+        r = self.rng.random()
+        if d <= 0 or r < 0.2:
+            return self.int_atom()
+        if r < 0.5:
+            return ("bin", self.rng.choice(self.INT_ARITH), self.int(d - 1, pure), self.int(d - 1, pure))
+        if r < 0.56:
+            return ("un", "UNARY_MINUS", self.int(d - 1, pure))
+        if r < 0.66:
+            return self.int_lvalue(d - 1)
+        if r < 0.72:
+            return ("ite", self.bool(d - 1, pure), self.int(d - 1, pure), self.int(d - 1, pure))
+        if r < 0.80:
+            f = self.rng.choice(["f0", "f1", "f2", "f3"])
+            return ("call", f, [self.int(d - 1, pure) for _ in range(FUNCS[f])])
+        if r < 0.84 and self.quantifiers:
+            v = self.rng.choice(["q", "r"])
+            self.bound.append(v)
+            try:
+                body = self.int(d - 1, True)
+            finally:
+                self.bound.pop()
+            return ("quant", "SUM", v, self.rng.choice(QUANT_TYPES), body)
+        if r < 0.87:
+            return ("builtin", "ABS_F", [self.int(d - 1, pure)])
+        if r < 0.90:
+            return ("plus", self.int(d - 1, pure))
+        if not pure and self.side_effects:
+            if r < 0.95:
+                return ("assign", self.rng.choice(["ASSIGN", "ASS_PLUS", "ASS_MINUS", "ASS_MULT", "ASS_DIV", "ASS_MOD",
+                                                   "ASS_OR", "ASS_AND", "ASS_XOR", "ASS_LSHIFT", "ASS_RSHIFT"]),
+                        self.int_lvalue(d - 1), self.int(d - 1, pure))
+            return ("un", self.rng.choice(["PRE_INCREMENT", "PRE_DECREMENT", "POST_INCREMENT", "POST_DECREMENT"]),
+                    self.int_lvalue(d - 1))
+        return self.int_atom()
+
+    def bool(self, d, pure=False):
+        r = self.rng.random()
+        if d <= 0 or r < 0.15:
+            return self.rng.choice([("id", "b"), ("id", "c"), ("bool", 0), ("bool", 1)])
+        if r < 0.40:
+            return ("bin", self.rng.choice(self.REL), self.int(d - 1, pure), self.int(d - 1, pure))
+        if r < 0.46 and self.doubles:
+            return ("bin", self.rng.choice(["LT", "LE", "GE", "GT"]), self.dbl(d - 1), self.dbl(d - 1))
+        if r < 0.66:
+            return ("bin", self.rng.choice(["AND", "OR", "XOR"]), self.bool(d - 1, pure), self.bool(d - 1, pure))
+        if r < 0.74:
+            return ("un", "NOT", self.bool(d - 1, pure))
+        if r < 0.80:
+            return ("imply", self.bool(d - 1, pure), self.bool(d - 1, pure))
+        if r < 0.86 and self.quantifiers:
+            v = self.rng.choice(["q", "r"])
+            self.bound.append(v)
+            try:
+                body = self.bool(d - 1, True)
+            finally:
+                self.bound.pop()
+            return ("quant", self.rng.choice(["FORALL", "EXISTS"]), v, self.rng.choice(QUANT_TYPES), body)
+        if r < 0.92:
+            return ("ite", self.bool(d - 1, pure), self.bool(d - 1, pure), self.bool(d - 1, pure))
+        if r < 0.96:
+            return ("idx", ("id", "ba"), self.int(d - 1, True))
+        return ("bin", self.rng.choice(["EQ", "NEQ"]), self.bool(d - 1, pure), self.bool(d - 1, pure))
+
+    def dbl(self, d):
+        r = self.rng.random()
+        if d <= 0 or r < 0.3:
+            return self.rng.choice([("id", "d"), ("id", "e"), ("dbl", self.rng.choice(
+                ["0.5", "1.5", "2.0", "0.1", "1e3", "3.25e-2", "0.333333333333333314829616256247", "1e-7",
+                 "123456.789", "1e22", "2.5e-300", "17.0"]))])
+        if r < 0.6:
+            return ("bin", self.rng.choice(self.DBL_ARITH), self.dbl(d - 1), self.dbl(d - 1))
+        if r < 0.72:
+            return ("builtin", self.rng.choice(self.DBL_FUN1), [self.dbl(d - 1)])
+        if r < 0.80:
+            return ("builtin", self.rng.choice(self.DBL_FUN2), [self.dbl(d - 1), self.dbl(d - 1)])
+        if r < 0.85:
+            return ("un", "UNARY_MINUS", self.dbl(d - 1))
+        if r < 0.90:
+            return ("dot", ("id", "s"), "h")
+        if r < 0.95:
+            return ("ite", self.bool(d - 1, True), self.dbl(d - 1), self.dbl(d - 1))
+        return ("call", "g1", [self.dbl(d - 1)])
+
+    def any(self, d):
+        r = self.rng.random()
+        if r < 0.5:
+            return self.int(d)
+        if r < 0.85 or not self.doubles:
+            return self.bool(d)
+        return self.dbl(d)
